@@ -7,12 +7,65 @@
    universally quantified in every theorem; the executable instance C17/Mputil.v is used by the
    examples and the correspondence check. *)
 From Coq Require Import ZArith String List Bool Lia.
-From Verif Require Import C17.Model C17.Spec C17.Mputil C17.Proofs C17.ProofsOpts C17.ProofsGeom
+From Verif Require Import C17.Model C17.Spec C17.Mputil C17.ProofsPacked C17.Proofs C17.ProofsOpts C17.ProofsGeom
      C17.ProofsRoute C17.ProofsJoin C17.ProofsArea C17.ProofsCarry C17.ProofsGeoEq C17.ProofsDup C17.ProofsAbsorb C17.ProofsOracle C17.ProofsGeoBuild C17.ProofsGeoScene C17.Examples C17.ProofsWitness.
 From Verif Require C18.Model C18.Spec C18.Proofs C18.Api C18.Tags Geo.Model Geo.Rings Geo.Orient Geo.Build Geo.Collect Properties.C16.
 From VerifGen Require Import GenTags.
 Import ListNotations.
 Open Scope Z_scope.
+
+(* ---------------------------------------------------------------------------------------
+   0. Identifiers.  All theorems quantify over arbitrary integer ids.  Two places of osmgeojson go
+      through the packed osm.FeatureID (type code + 40 bits of ref; property C10): buildPolygon reads
+      the identity of its feature back out of tagObject.FeatureID(), and the membership map
+      ctx.relationMember is keyed by packed ids.  The model follows the code through the packing
+      functions regenerated from /repo (gen/GenIds.v): [fid], [unpack].  Outside the packed range the
+      code — and the model — get the identity or the memberships wrong (known finding
+      polygon-id-outside-packed-range: C17_polygon_relation_id_outside_packed_range_refuted,
+      C17_membership_key_clash_refuted below).  The class is a boolean on the input alone
+      (Spec.v):   packed_ok d = poly_ids_ok d && negb (key_clash d)
+        poly_ids_ok d : every multipolygon/boundary relation and each of its outer way members has
+                        an id in [0,2^40)
+        key_clash d   : some member entry packs to the FeatureID of a DIFFERENT element of d
+      The theorems that speak about the identity of relation-pass features carry [poly_ids_ok d =
+      true], those that speak about memberships carry [key_clash d = false]; the theorems about
+      way-pass and route features, geometry, tainted flags, the skippable set and the options NoID,
+      NoMeta, IncludeInvalidPolygons hold for ALL ids.  Nodes, ways and non-polygon relations may
+      have any id (negative, >= 2^40) as long as no member entry collides with them. *)
+Theorem C17_polygon_identity_in_range : forall t r,
+  t <> TNone -> in40 r = true -> unpack (fid t r) = (t, r).
+Proof. exact unpack_fid. Qed.
+Print Assumptions C17_polygon_identity_in_range.
+
+Theorem C17_membership_lookup_exact : forall o d e,
+  key_clash d = false -> In e (element_keys d) -> rel_summaries o d e = rel_summaries_x o d e.
+Proof. exact rel_summaries_exact. Qed.
+Print Assumptions C17_membership_lookup_exact.
+
+(* the unconditional claims are false of the faithful model, and of the code (harness corpus cases
+   polyNegativeID and keyClash, model = implementation on both): a tagged multipolygon relation
+   with id -1 is reported with type "" and id 2^40-1; node -1 inherits the membership of way -1
+   and is emitted only because of it, so NoRelationMembership removes a feature *)
+Theorem C17_polygon_relation_id_outside_packed_range_refuted :
+  exists d f, ids_unique d /\ key_clash d = false /\ poly_ids_ok d = false /\
+              In f (convert Mputil.join Mputil.ring_of o0 d) /\
+              f_type f = TNone /\ f_ref f = 1099511627775 /\ ~ carries_element o0 d f.
+Proof. exact polygon_relation_id_outside_packed_range_refuted. Qed.
+Print Assumptions C17_polygon_relation_id_outside_packed_range_refuted.
+
+Theorem C17_membership_key_clash_refuted :
+  exists d, ids_unique d /\ poly_ids_ok d = true /\ key_clash d = true /\
+    (exists f, In f (convert Mputil.join Mputil.ring_of o0 d) /\ fkey f = (TNode, -1) /\
+               f_rels f <> Some (spec_rels d (fkey f))) /\
+    convert Mputil.join Mputil.ring_of (set_noRelM true o0) d
+      <> map erase_rels (convert Mputil.join Mputil.ring_of (set_noRelM false o0) d).
+Proof. exact membership_key_clash_refuted. Qed.
+Print Assumptions C17_membership_key_clash_refuted.
+
+Example C17_packed_ok_nonvacuous :
+  (* the ordinary example data are outside the class; ids of nodes and ways may be anything *)
+  packed_ok d_rich = true /\ packed_ok d_shared = true /\ packed_ok d_polyneg = false /\ packed_ok d_clash = false.
+Proof. vm_compute. repeat split. Qed.
 
 (* ---------------------------------------------------------------------------------------
    1. At most one feature per input element.
@@ -23,7 +76,7 @@ Open Scope Z_scope.
       two relations.  [adoption_unique] is a predicate on the input alone; the harness assigns
       the known-finding class by its negation. *)
 Theorem C17_at_most_one_feature_per_element : forall join ring_of o d,
-  ids_unique d -> adoption_unique d -> NoDup (map fkey (convert join ring_of o d)).
+  poly_ids_ok d = true -> ids_unique d -> adoption_unique d -> NoDup (map fkey (convert join ring_of o d)).
 Proof. exact at_most_one_feature_per_element. Qed.
 Print Assumptions C17_at_most_one_feature_per_element.
 
@@ -44,18 +97,19 @@ Print Assumptions C17_at_most_one_feature_refuted.
    pairwise different IF AND ONLY IF no way is adopted twice.  So the known-finding class
    (harness: inKnownClass = not NoDup of the adopted ways) is exact, not an over-approximation. *)
 Theorem C17_adopted_ways_exact : forall join ring_of, ring_single ring_of -> forall o d,
+  poly_ids_ok d = true ->
   way_keys (rel_features join ring_of o d) = flat_map (adopts d) (relations d).
 Proof. exact adopted_ways_exact. Qed.
 Print Assumptions C17_adopted_ways_exact.
 
 Theorem C17_duplicate_feature_iff : forall join ring_of, ring_single ring_of -> forall o d,
-  ids_unique d ->
+  poly_ids_ok d = true -> ids_unique d ->
   (NoDup (map fkey (convert join ring_of o d)) <-> NoDup (flat_map (adopts d) (relations d))).
 Proof. exact duplicate_feature_iff. Qed.
 Print Assumptions C17_duplicate_feature_iff.
 
 Theorem C17_duplicate_feature_iff_exec : forall o d,
-  ids_unique d ->
+  poly_ids_ok d = true -> ids_unique d ->
   (NoDup (map fkey (convert Mputil.join Mputil.ring_of o d)) <-> NoDup (flat_map (adopts d) (relations d))).
 Proof. exact (duplicate_feature_iff Mputil.join Mputil.ring_of ring_single_exec). Qed.
 Print Assumptions C17_duplicate_feature_iff_exec.
@@ -67,10 +121,10 @@ Proof. vm_compute. split; reflexivity. Qed.
 
 (* non-vacuity: d_rich meets both hypotheses and converts to nine features *)
 Example C17_at_most_one_nonvacuous :
-  ids_unique d_rich /\ adoption_unique d_rich /\
+  poly_ids_ok d_rich = true /\ ids_unique d_rich /\ adoption_unique d_rich /\
   List.length (convert Mputil.join Mputil.ring_of o0 d_rich) = 9%nat.
 Proof.
-  split; [|split; [|vm_compute; reflexivity]].
+  split; [vm_compute; reflexivity|]. split; [|split; [|vm_compute; reflexivity]].
   - unfold ids_unique. cbn. repeat split; repeat (constructor; [cbn; intuition discriminate|]); constructor.
   - unfold adoption_unique. vm_compute. constructor.
 Qed.
@@ -80,6 +134,7 @@ Qed.
       tag, or is a relation member — and for no other node; the feature is exactly the node's
       point with its type, id, tags, meta and memberships. *)
 Theorem C17_node_feature_iff : forall join ring_of o d n,
+  packed_ok d = true ->
   In n (nodes d) -> NoDup (map n_id (nodes d)) ->
   ((exists f, In f (convert join ring_of o d) /\ fkey f = (TNode, n_id n)) <-> node_rule d n) /\
   (forall f, In f (convert join ring_of o d) -> fkey f = (TNode, n_id n) -> f = node_point o d n).
@@ -205,6 +260,7 @@ Print Assumptions C17_way_area_closed.
       member order — for nodes, ways (of the data, or known only from an annotated multipolygon
       member: no tags, no meta, no memberships) and relations. *)
 Theorem C17_feature_carries : forall join ring_of o d f,
+  packed_ok d = true ->
   In f (convert join ring_of o d) -> carries_element o d f.
 Proof. exact feature_carries. Qed.
 Print Assumptions C17_feature_carries.
@@ -219,6 +275,7 @@ Proof. exact meta_obs_fields. Qed.
 Print Assumptions C17_meta_fields.
 
 Theorem C17_membership_summaries : forall o d key,
+  key_clash d = false -> In key (element_keys d) ->
   noRelM o = false ->
   (fst key = TWay -> is_some (way_lookup d (snd key)) = true) ->
   rel_summaries o d key = spec_rels d key.
@@ -226,6 +283,7 @@ Proof. exact rel_summaries_spec. Qed.
 Print Assumptions C17_membership_summaries.
 
 Theorem C17_membership_absent_way : forall o d id,
+  key_clash d = false -> In (TWay, id) (element_keys d) ->
   way_lookup d id = None -> rel_summaries o d (TWay, id) = [].
 Proof. exact rel_summaries_absent_way. Qed.
 Print Assumptions C17_membership_absent_way.
@@ -337,7 +395,7 @@ Print Assumptions C17_buildPolygon_is_geo_build_polygon.
    ring, closed, complete, counter-clockwise and whose other rings are exactly its own holes,
    clockwise; not tainted; whatever IncludeInvalidPolygons says. *)
 Theorem C17_convert_multipolygon_geometry : forall o d r ds (sc : Geo.Build.gscene),
-  In r (relations d) -> is_mp r = true ->
+  In r (relations d) -> is_mp r = true -> poly_in_range r = true ->
   sc <> [] ->
   NoDup (concat (Geo.Build.s_outers sc)) -> NoDup (concat (Geo.Build.s_holes sc)) ->
   Forall (fun ring => (3 <= List.length ring)%nat) (Geo.Build.s_outers sc ++ Geo.Build.s_holes sc) ->
@@ -378,6 +436,7 @@ Proof.
     as [f [mp [sc' [_ [H1 [_ [H2 [_ [_ [H3 _]]]]]]]]]].
   - left. reflexivity.
   - reflexivity.
+  - vm_compute. reflexivity.
   - discriminate.
   - cbn. repeat (constructor; [cbn; intuition congruence|]). constructor.
   - cbn. repeat (constructor; [cbn; intuition congruence|]). constructor.
@@ -410,6 +469,7 @@ Proof. exact option_NoMeta. Qed.
 Print Assumptions C17_option_NoMeta.
 
 Theorem C17_option_NoRelationMembership : forall join ring_of o d,
+  key_clash d = false ->
   convert join ring_of (set_noRelM true o) d = map erase_rels (convert join ring_of (set_noRelM false o) d).
 Proof. exact option_NoRelationMembership. Qed.
 Print Assumptions C17_option_NoRelationMembership.
@@ -502,6 +562,7 @@ Print Assumptions C17_oracle_node_rule_iff.
    output for all data and options: they cannot raise a false alarm, and — being stated on the
    input alone — they catch a conversion that silently drops features *)
 Theorem C17_oracle_completeness_sound : forall join ring_of, ring_single ring_of -> forall o d,
+  key_clash d = false ->
   nodes_complete d (convert join ring_of o d) = true /\
   ways_complete d (convert join ring_of o d) = true /\
   routes_complete d (convert join ring_of o d) = true.
